@@ -525,6 +525,15 @@ func judge(ref *reference, r record, bound int, after func(r record) int) (fs []
 			add("stops-too-late", fmt.Sprintf("%d tokens were delivered after the cancellation (bound %d)", d, bound))
 		}
 	}
+	// Site discriminator: the parse polled the context after the cancellation (ctx.Done() was
+	// closed at that poll) and went on nevertheless - the poll's answer was swallowed somewhere
+	// between the polling loop and Parse's return. The symptoms above are its consequences.
+	if r.PollsAfter >= 2 {
+		for i := range fs {
+			fs[i].key = "poll-saw-cancellation-but-parse-continued:" + fs[i].key
+			fs[i].what += fmt.Sprintf(" [the context was polled %d times after the cancellation; the first of these polls did not end the parse]", r.PollsAfter)
+		}
+	}
 	return
 }
 
@@ -898,9 +907,9 @@ type ev struct {
 type shippedParser struct {
 	Name   string
 	Inputs []genInput
-	// run parses src, calling node for every listener event; returns Parse's error and whether
-	// it is a syntax error.
-	run    func(ctx context.Context, src string, node func(t, off, end int), onErr func()) (err error, syntax bool)
+	// run parses src, calling node for every listener event and onErr for every error-handler
+	// call; returns Parse's error and, for a SyntaxError, its description "syntax@off-end".
+	run    func(ctx context.Context, src string, node func(t, off, end int), onErr func(off, end int)) (err error, syntax string)
 	tokens func(src string) []int // start offsets of the lexer's tokens
 	typ    func(t int) string
 }
@@ -932,15 +941,17 @@ func shippedParsers() []shippedParser {
 				{"func150", strings.Repeat("function f(x) { return x * 2; }\n", 150)},
 				{"ifelse80", strings.Repeat("if (a) { b(c, d); } else { e = [1, 2, 3]; }\n", 80)},
 			},
-			run: func(ctx context.Context, src string, node func(t, off, end int), onErr func()) (error, bool) {
+			run: func(ctx context.Context, src string, node func(t, off, end int), onErr func(off, end int)) (error, string) {
 				var s js.TokenStream
 				var p js.Parser
 				l := func(nt js.NodeType, off, end int) { node(int(nt), off, end) }
 				s.Init(src, l)
-				p.Init(func(se js.SyntaxError) bool { onErr(); return true }, l)
+				p.Init(func(se js.SyntaxError) bool { onErr(se.Offset, se.Endoffset); return true }, l)
 				err := p.ParseModule(ctx, &s)
-				_, syn := err.(js.SyntaxError)
-				return err, syn
+				if se, ok := err.(js.SyntaxError); ok {
+					return err, fmt.Sprintf("syntax@%d-%d", se.Offset, se.Endoffset)
+				}
+				return err, ""
 			},
 			tokens: func(src string) []int {
 				var l js.Lexer
@@ -963,15 +974,17 @@ func shippedParsers() []shippedParser {
 				{"lexer260parser120", tmText.String()},
 				{"longrule700", tmLong.String()},
 			},
-			run: func(ctx context.Context, src string, node func(t, off, end int), onErr func()) (error, bool) {
+			run: func(ctx context.Context, src string, node func(t, off, end int), onErr func(off, end int)) (error, string) {
 				var s tm.TokenStream
 				var p tm.Parser
 				l := func(nt tm.NodeType, off, end int) { node(int(nt), off, end) }
 				s.Init(src, l)
-				p.Init(func(se tm.SyntaxError) bool { onErr(); return true }, l)
+				p.Init(func(se tm.SyntaxError) bool { onErr(se.Offset, se.Endoffset); return true }, l)
 				err := p.ParseFile(ctx, &s)
-				_, syn := err.(tm.SyntaxError)
-				return err, syn
+				if se, ok := err.(tm.SyntaxError); ok {
+					return err, fmt.Sprintf("syntax@%d-%d", se.Offset, se.Endoffset)
+				}
+				return err, ""
 			},
 			tokens: func(src string) []int {
 				var l tm.Lexer
@@ -995,14 +1008,16 @@ func shippedParsers() []shippedParser {
 				{"block250", strings.Repeat("{ - decl2 7 [] test 5 } ", 250)},
 				{"eval120", strings.Repeat("eval(1.2+3+4) decl2 ", 120)},
 			},
-			run: func(ctx context.Context, src string, node func(t, off, end int), onErr func()) (error, bool) {
+			run: func(ctx context.Context, src string, node func(t, off, end int), onErr func(off, end int)) (error, string) {
 				var l test.Lexer
 				var p test.Parser
 				l.Init(src)
 				p.Init(func(nt test.NodeType, flags test.NodeFlags, off, end int) { node(int(nt), off, end) })
 				err := p.ParseTest(ctx, &l)
-				_, syn := err.(test.SyntaxError)
-				return err, syn
+				if se, ok := err.(test.SyntaxError); ok {
+					return err, fmt.Sprintf("syntax@%d-%d", se.Offset, se.Endoffset)
+				}
+				return err, ""
 			},
 			tokens: func(src string) []int {
 				var l test.Lexer
@@ -1071,7 +1086,7 @@ func runShipped(p *shippedParser, src string, s int, keep bool) shippedOut {
 	h := uint64(hashSeed)
 	node := func(t, off, end int) {
 		clock++
-		h = evHash(h, p.typ(t), off, end)
+		h = evHash(h, p.typeName(t), off, end)
 		if keep {
 			o.events = append(o.events, ev{t, off, end})
 		}
@@ -1084,15 +1099,17 @@ func runShipped(p *shippedParser, src string, s int, keep bool) shippedOut {
 		o.rec.AtCancel = 0
 		cancel()
 	}
-	err, syn := p.run(ctx, src, node, func() { o.handler++ })
+	// an error-handler call is part of the observable outcome and a tick of the clock: it enters
+	// the event stream as the pseudo event "!error"
+	err, syn := p.run(ctx, src, node, func(off, end int) { o.handler++; node(-1, off, end) })
 	o.rec.EvN, o.rec.EvH, o.rec.Delivered, o.rec.Polls = clock, h, clock, ctx.polls
 	switch {
 	case err == nil:
 		o.rec.ErrKind = "nil"
 	case base.Err() != nil && err == base.Err():
 		o.rec.ErrKind = "ctx"
-	case syn:
-		o.rec.ErrKind = "syntax: " + err.Error()
+	case syn != "":
+		o.rec.ErrKind = syn
 	default:
 		o.rec.ErrKind = "other: " + err.Error()
 	}
@@ -1103,22 +1120,36 @@ type shippedCase struct {
 	Parser string `json:"shipped_parser"`
 	Input  string `json:"input_name"`
 	S      int    `json:"s"`
+	Text   string `json:"text,omitempty"` // inputs that are not in the parser's fixed list
+	Valid  bool   `json:"valid,omitempty"`
+	Slack  int    `json:"slack,omitempty"`
+}
+
+func (p *shippedParser) typeName(t int) string {
+	if t < 0 {
+		return "!error"
+	}
+	return p.typ(t)
 }
 
 // shippedRef is the uncancelled run plus the conversion clock -> number of lexer tokens that
 // start before the furthest text position reported so far.
 type shippedRef struct {
 	reference
-	tokAt []int // tokAt[k] = tokens starting before max endoffset of the first k events
-	ntok  int
+	tokAt        []int // tokAt[k] = tokens starting before max endoffset of the first k events
+	handlerCalls int
+	ntok         int
 }
 
-func buildShippedRef(p *shippedParser, src string) (*shippedRef, error) {
+func buildShippedRef(p *shippedParser, src string, valid bool) (*shippedRef, error) {
 	o := runShipped(p, src, -1, true)
-	if o.rec.ErrKind != "nil" || o.handler != 0 {
+	if valid && (o.rec.ErrKind != "nil" || o.handler != 0) {
 		return nil, fmt.Errorf("the uncancelled parse fails: %s, %d handler calls", o.rec.ErrKind, o.handler)
 	}
-	r := &shippedRef{}
+	if o.rec.ErrKind == "ctx" || strings.HasPrefix(o.rec.ErrKind, "other") {
+		return nil, fmt.Errorf("the uncancelled parse returns %s", o.rec.ErrKind)
+	}
+	r := &shippedRef{handlerCalls: o.handler}
 	r.rec = o.rec
 	r.pollClock = o.pollClock
 	toks := p.tokens(src)
@@ -1128,7 +1159,7 @@ func buildShippedRef(p *shippedParser, src string) (*shippedRef, error) {
 	r.tokAt = append(r.tokAt, 0)
 	maxEnd := 0
 	for _, e := range o.events {
-		h = evHash(h, p.typ(e.T), e.Off, e.End)
+		h = evHash(h, p.typeName(e.T), e.Off, e.End)
 		r.prefixH = append(r.prefixH, h)
 		if e.End > maxEnd {
 			maxEnd = e.End
@@ -1170,51 +1201,260 @@ func shippedMoments(ref *shippedRef, quick bool) []int {
 	return out
 }
 
-func judgeShipped(ref *shippedRef, r record) ([]finding, string) {
-	return judge(&ref.reference, r, pollEvery+shippedSlack, func(r record) int {
+// slack: further lexer tokens that are passed over without being shifted (discarded by error
+// recovery); 0 for valid inputs.
+func judgeShipped(ref *shippedRef, r record, slack int) ([]finding, string) {
+	return judge(&ref.reference, r, pollEvery+shippedSlack+slack, func(r record) int {
 		a, b := min(r.AtCancel, len(ref.tokAt)-1), min(r.Delivered, len(ref.tokAt)-1)
 		return ref.tokAt[b] - ref.tokAt[a]
 	})
 }
 
+// shippedInput is one input of a shipped parser with its family's parameters.
+type shippedInput struct {
+	genInput
+	valid  bool // the uncancelled parse must succeed without handler calls
+	all    bool // every moment (short inputs) instead of shippedMoments
+	phase  bool // moments: the first callbacks and both sides of every poll
+	fixed  bool // the input is in the parser's fixed list (replay finds it by name)
+	family string
+}
+
+func momentsFor(ref *shippedRef, in shippedInput, quick bool) []int {
+	switch {
+	case in.all:
+		ms := []int{-1, -3}
+		for s := 0; s <= ref.rec.EvN+1; s++ {
+			ms = append(ms, s)
+		}
+		return ms
+	case in.phase:
+		set := map[int]bool{-1: true, 0: true, 1: true, 2: true, 3: true}
+		for _, pc := range ref.pollClock {
+			for d := -2; d <= 2; d++ {
+				if pc+d >= 0 {
+					set[pc+d] = true
+				}
+			}
+		}
+		var ms []int
+		for s := range set {
+			ms = append(ms, s)
+		}
+		sort.Ints(ms)
+		return ms
+	}
+	return shippedMoments(ref, quick)
+}
+
+// slackFor: error recovery passes over tokens without shifting them; the statement bounds
+// SHIFTED tokens, so for malformed inputs the bound on the text distance is widened by 8 tokens
+// per error-handler call of the uncancelled run.
+func slackFor(ref *shippedRef) int { return 8 * ref.handlerCalls }
+
+func sweepShipped(c *core.Ctx, st *stats, p *shippedParser, in shippedInput, agg map[string]*famStat) {
+	sc := shippedCase{Parser: p.Name, Input: in.Name, S: -1, Valid: in.valid}
+	if !in.fixed {
+		sc.Text = in.Text
+	}
+	ref, err := buildShippedRef(p, in.Text, in.valid)
+	if err != nil {
+		c.Violate("shipped:"+p.Name+":reference-run", err.Error()+" on input "+in.Name, sc)
+		return
+	}
+	sc.Slack = slackFor(ref)
+	fs := agg[p.Name+"/"+in.family]
+	if fs == nil {
+		fs = &famStat{}
+		agg[p.Name+"/"+in.family] = fs
+	}
+	fs.inputs++
+	fs.handlerCalls += ref.handlerCalls
+	if ref.rec.ErrKind != "nil" {
+		fs.failing++
+	}
+	if in.fixed {
+		// the reference run itself: polls are at most 0x200 tokens apart
+		prev := 0
+		maxGap := 0
+		for _, pc := range append(append([]int{}, ref.pollClock...), ref.rec.EvN) {
+			if g := ref.tokAt[pc] - prev; g > maxGap {
+				maxGap = g
+			}
+			prev = ref.tokAt[pc]
+		}
+		c.Set("shipped_"+p.Name+"_"+in.Name, map[string]any{"tokens": ref.ntok, "events": ref.rec.EvN, "polls": len(ref.pollClock), "max_tokens_between_polls": maxGap, "handler_calls": ref.handlerCalls, "uncancelled": ref.rec.ErrKind})
+		if len(ref.pollClock) < 2 {
+			c.Capped(fmt.Sprintf("shipped %s/%s: only %d polls, input too short", p.Name, in.Name, len(ref.pollClock)))
+		}
+	}
+	ms := momentsFor(ref, in, c.Quick())
+	recs := make([]record, len(ms))
+	if len(ms)*len(in.Text) > 200000 {
+		core.ParallelFor(len(ms), 8, func(i int) { recs[i] = runShipped(p, in.Text, ms[i], false).rec })
+	} else {
+		for i := range ms {
+			recs[i] = runShipped(p, in.Text, ms[i], false).rec
+		}
+	}
+	for _, r := range recs {
+		fds, class := judgeShipped(ref, r, sc.Slack)
+		st.note(c, p.Name, in.Name, r, class)
+		fs.runs++
+		if r.AtCancel >= 0 {
+			a, b := min(r.AtCancel, len(ref.tokAt)-1), min(r.Delivered, len(ref.tokAt)-1)
+			if d := ref.tokAt[b] - ref.tokAt[a]; d > fs.maxAfter {
+				fs.maxAfter = d
+			}
+		}
+		for _, f := range fds {
+			k := sc
+			k.S = r.S
+			c.Violate("shipped:"+p.Name+":"+f.key, fmt.Sprintf("%s; parser %s, input %s %q (uncancelled outcome %s with %d handler calls), cancelled after %d listener/handler calls (returned after %d, %d polls)", f.what, p.Name, in.Name, clip(in.Text), ref.rec.ErrKind, ref.handlerCalls, r.AtCancel, r.Delivered, r.Polls), k)
+		}
+	}
+}
+
+func clip(s string) string {
+	if len(s) > 90 {
+		return s[:60] + "…" + s[len(s)-25:]
+	}
+	return s
+}
+
+type famStat struct {
+	inputs, failing, handlerCalls, runs, maxAfter int
+}
+
+// tokenMutations: the seed, every 1-token deletion and duplication, and a foreign token (")" and
+// ";") inserted in front of every token.
+func tokenMutations(p *shippedParser, seed string) []string {
+	out := []string{seed}
+	seen := map[string]bool{seed: true}
+	add := func(s string) {
+		if !seen[s] {
+			seen[s] = true
+			out = append(out, s)
+		}
+	}
+	starts := p.tokens(seed)
+	for i, a := range starts {
+		b := len(seed)
+		if i+1 < len(starts) {
+			b = starts[i+1]
+		}
+		tok := seed[a:b]
+		add(seed[:a] + seed[b:])
+		add(seed[:b] + tok + seed[b:])
+		add(seed[:a] + ") " + seed[a:])
+		add(seed[:a] + "; " + seed[a:])
+	}
+	return out
+}
+
+var shortSeeds = map[string][]string{
+	"tm": {
+		"language l(a); :: lexer\n a: /a/ b: /b/ :: parser\n x: a b | b ;",
+		"language l(go);\n:: lexer\n<s> k: /x/ (space)\n:: parser\n%input z;\nz -> Z: k (k | k)* ;\n",
+	},
+	"js": {
+		"var a = 1;\nfunction f(x) { return x + 1; }\n",
+		"if (a) { b(); } else { c = [1, 2]; }",
+	},
+}
+
+func malformedLong(name string) []genInput {
+	var sb strings.Builder
+	switch name {
+	case "js":
+		for i := 0; i < 400; i++ {
+			switch {
+			case i%37 == 5:
+				sb.WriteString("a = ) b + 1;\n")
+			case i%41 == 7:
+				sb.WriteString("a = b + ;\n")
+			case i%59 == 13:
+				sb.WriteString("} a = 1;\n")
+			default:
+				sb.WriteString("a = b + 1;\n")
+			}
+		}
+		return []genInput{{"assign400-malformed", sb.String()}}
+	case "tm":
+		sb.WriteString("language l(go);\n\n:: lexer\n\n")
+		for i := 0; i < 260; i++ {
+			switch {
+			case i%31 == 5:
+				fmt.Fprintf(&sb, "tok%d: ) /a%d/\n", i, i)
+			case i%43 == 7:
+				fmt.Fprintf(&sb, "tok%d /a%d/\n", i, i)
+			default:
+				fmt.Fprintf(&sb, "tok%d: /a%d/\n", i, i)
+			}
+		}
+		sb.WriteString("\n:: parser\n\n")
+		for i := 0; i < 120; i++ {
+			switch {
+			case i%17 == 3:
+				fmt.Fprintf(&sb, "r%d -> N%d: tok%d ) r%d? | (tok1 tok2)+ ;\n", i, i, i, (i+1)%120)
+			case i%23 == 9:
+				fmt.Fprintf(&sb, "r%d -> : tok%d | ;\n", i, i)
+			default:
+				fmt.Fprintf(&sb, "r%d -> N%d: tok%d r%d? | (tok1 tok2)+ ;\n", i, i, i, (i+1)%120)
+			}
+		}
+		return []genInput{{"lexer260parser120-malformed", sb.String()}}
+	}
+	return nil
+}
+
+// phaseInput: k one-token statements, one statement that needs a runtime lookahead, a long tail.
+func phaseInput(name string, k int) (string, bool) {
+	switch name {
+	case "test":
+		return strings.Repeat("decl2 ", k) + "eval(1 . 2) " + strings.Repeat("decl2 ", 700), true
+	case "js":
+		return strings.Repeat(";", k) + "x = (a, b) => a;\n" + strings.Repeat(";", 1300), true
+	}
+	return "", false
+}
+
+func shippedInputs(p *shippedParser, quick bool) []shippedInput {
+	var out []shippedInput
+	for _, in := range p.Inputs {
+		out = append(out, shippedInput{genInput: in, valid: true, fixed: true, family: "valid-long"})
+	}
+	for _, in := range malformedLong(p.Name) {
+		out = append(out, shippedInput{genInput: in, family: "malformed-long"})
+	}
+	for si, seed := range shortSeeds[p.Name] {
+		for mi, m := range tokenMutations(p, seed) {
+			out = append(out, shippedInput{genInput: genInput{fmt.Sprintf("short%d-mut%d", si, mi), m}, all: true, family: "malformed-short"})
+		}
+	}
+	for _, k := range phaseKs(quick) {
+		if text, ok := phaseInput(p.Name, k); ok {
+			out = append(out, shippedInput{genInput: genInput{fmt.Sprintf("phase-pad%d", k), text}, valid: true, phase: true, family: "phase"})
+		}
+	}
+	return out
+}
+
 func shippedPart(c *core.Ctx, st *stats) {
+	agg := map[string]*famStat{}
 	for _, p := range shippedParsers() {
 		p := p
-		for _, in := range p.Inputs {
+		for _, in := range shippedInputs(&p, c.Quick()) {
 			if c.Expired() {
-				c.Capped(fmt.Sprintf("shipped %s/%s not run (budget)", p.Name, in.Name))
-				continue
+				c.Capped(fmt.Sprintf("shipped %s: inputs from %s on not run (budget)", p.Name, in.Name))
+				break
 			}
-			ref, err := buildShippedRef(&p, in.Text)
-			if err != nil {
-				c.Violate("shipped:"+p.Name+":reference-run", err.Error()+" on input "+in.Name, shippedCase{p.Name, in.Name, -1})
-				continue
-			}
-			// the reference run itself: polls are at most 0x200 tokens apart
-			prev := 0
-			maxGap := 0
-			for _, pc := range append(append([]int{}, ref.pollClock...), ref.rec.EvN) {
-				if g := ref.tokAt[pc] - prev; g > maxGap {
-					maxGap = g
-				}
-				prev = ref.tokAt[pc]
-			}
-			c.Set("shipped_"+p.Name+"_"+in.Name, map[string]any{"tokens": ref.ntok, "events": ref.rec.EvN, "polls": len(ref.pollClock), "max_tokens_between_polls": maxGap})
-			if len(ref.pollClock) < 2 {
-				c.Capped(fmt.Sprintf("shipped %s/%s: only %d polls, input too short", p.Name, in.Name, len(ref.pollClock)))
-			}
-			ms := shippedMoments(ref, c.Quick())
-			recs := make([]record, len(ms))
-			core.ParallelFor(len(ms), 8, func(i int) { recs[i] = runShipped(&p, in.Text, ms[i], false).rec })
-			for _, r := range recs {
-				fs, class := judgeShipped(ref, r)
-				st.note(c, p.Name, in.Name, r, class)
-				for _, f := range fs {
-					c.Violate("shipped:"+p.Name+":"+f.key, fmt.Sprintf("%s; parser %s, input %s, cancelled after %d listener events (returned after %d, %d polls)", f.what, p.Name, in.Name, r.AtCancel, r.Delivered, r.Polls), shippedCase{p.Name, in.Name, r.S})
-				}
-			}
-			debugf("shipped %s/%s: %d moments", p.Name, in.Name, len(ms))
+			sweepShipped(c, st, &p, in, agg)
 		}
+		debugf("shipped %s done", p.Name)
+	}
+	for k, f := range agg {
+		c.Set("shipped_family_"+k, map[string]any{"inputs": f.inputs, "inputs_with_returned_syntax_error": f.failing, "handler_calls_in_reference_runs": f.handlerCalls, "runs": f.runs, "max_tokens_after_cancel": f.maxAfter})
 	}
 }
 
@@ -1246,21 +1486,44 @@ func replay(c *core.Ctx, raw json.RawMessage) error {
 			if p.Name != k.Parser {
 				continue
 			}
-			for _, in := range p.Inputs {
-				if in.Name != k.Input {
-					continue
+			text := k.Text
+			if text == "" {
+				for _, in := range p.Inputs {
+					if in.Name == k.Input {
+						text = in.Text
+					}
 				}
-				ref, err := buildShippedRef(&p, in.Text)
-				if err != nil {
-					return err
-				}
-				r := runShipped(&p, in.Text, k.S, false).rec
-				fs, _ := judgeShipped(ref, r)
-				if len(fs) > 0 {
-					return fmt.Errorf("%s: %s", fs[0].key, fs[0].what)
-				}
-				return nil
 			}
+			if text == "" {
+				break
+			}
+			ref, err := buildShippedRef(&p, text, k.Valid)
+			if err != nil {
+				return err
+			}
+			o := runShipped(&p, text, k.S, true)
+			fs, _ := judgeShipped(ref, o.rec, k.Slack)
+			if len(fs) > 0 {
+				// where the event streams part
+				uo := runShipped(&p, text, -1, true)
+				d := 0
+				for d < len(o.events) && d < len(uo.events) && o.events[d] == uo.events[d] {
+					d++
+				}
+				show := func(es []ev) string {
+					var parts []string
+					for i := max(0, d-2); i < min(len(es), d+4); i++ {
+						parts = append(parts, fmt.Sprintf("#%d %s[%d,%d)", i, p.typeName(es[i].T), es[i].Off, es[i].End))
+					}
+					return strings.Join(parts, " ")
+				}
+				var all []string
+				for _, f := range fs {
+					all = append(all, f.key+": "+f.what)
+				}
+				return fmt.Errorf("%s; returned %s after %d events, polls at clock %v; first differing event #%d: cancelled run {%s} uncancelled run {%s}", strings.Join(all, "; "), o.rec.ErrKind, o.rec.EvN, o.pollClock, d, show(o.events), show(uo.events))
+			}
+			return nil
 		}
 		return fmt.Errorf("unknown shipped case %+v", k)
 	}
